@@ -680,6 +680,25 @@ mod vh_popen {
     /// reaped (by us with s = truth, or by someone else with s = Undetermined);
     /// Running => this Popen has not reaped it (it may be running, a zombie, or
     /// reaped by someone else).
+    /// Whatever the platform-specific part of `Running` carries (`()` on the
+    /// unchanged tree), every value of it is a state the invariant allows: a
+    /// Popen created with any PopenConfig (setpgid, ...) reaches it.
+    pub trait AnyExt {
+        fn any_ext() -> Self;
+    }
+    impl AnyExt for () {
+        fn any_ext() {}
+    }
+    macro_rules! any_ext_prim {
+        ($($t:ty),*) => { $(impl AnyExt for $t { fn any_ext() -> $t { kani::any() } })* };
+    }
+    any_ext_prim!(bool, u8, u16, u32, u64, usize, i8, i16, i32, i64, isize);
+    impl<T: AnyExt> AnyExt for Option<T> {
+        fn any_ext() -> Option<T> {
+            if kani::any() { Some(T::any_ext()) } else { None }
+        }
+    }
+
     pub unsafe fn any_life_state() -> Life {
         mk::reset();
         mk::init_std_fds();
@@ -723,7 +742,7 @@ mod vh_popen {
             child_state: if finished {
                 ChildState::Finished(stored)
             } else {
-                ChildState::Running { pid: 100, ext: unsafe { std::mem::zeroed() } }
+                ChildState::Running { pid: 100, ext: AnyExt::any_ext() }
             },
             detached: kani::any(),
         };
@@ -774,11 +793,14 @@ mod vh_popen {
                 got = Some(r);
             }
             1 => {
+                mp::EINTR_INJECTED = false;
+                mp::WAIT_EINTR_ARMED = kani::any();
                 let r = l.p.wait();
+                mp::WAIT_EINTR_ARMED = false;
                 match r {
                     Ok(s) => got = Some(Some(s)),
                     Err(e) => {
-                        vcheck!(C09, false, "C09/wait-no-error: wait() returned an error (a foreign reap must yield Undetermined)");
+                        vcheck!(C09, mp::EINTR_INJECTED, "C09/wait-no-error: wait() returned an error (a foreign reap must yield Undetermined)");
                         std::mem::forget(e);
                     }
                 }
@@ -830,7 +852,8 @@ mod vh_popen {
             vcheck!(C09, mp::KIDS[0].st == mp::KidSt::Reaped, "C09/no-status-while-child-runs: a status was reported while the child is still running or unreaped");
         }
         if op == 1 {
-            vcheck!(C09, got.is_some() && got != Some(None), "C09/wait-returns-status: wait() returned without a status");
+            vcheck!(C09, (got.is_some() && got != Some(None)) || mp::EINTR_INJECTED, "C09/wait-returns-status: wait() returned without a status");
+            kani::cover!(mp::EINTR_INJECTED, "COVER/wait-interrupted");
         }
         check_invariant(l);
     }
